@@ -20,10 +20,13 @@ structure St (β : Type) where
   mem : Option (List (Row β)) := none
   /-- content of the data file (`none`: no file) -/
   disk : Option (List (Row β)) := none
+  /-- `_full_df` of a second, parked Sampler object on the same file (`none`: nothing loaded / no such object) -/
+  other : Option (List (Row β)) := none
 
 inductive Op where
   | sample (draws : List (List Nat))     -- one run drawing these settings (direct or through a crop)
   | newSampler                           -- a fresh Sampler object on the same data file
+  | switch                               -- park the current object and continue with the parked (or a fresh) one
 deriving Repr
 
 def rowsOf {β} (f : List Nat → List β) (draws : List (List Nat)) : List (Row β) :=
@@ -38,11 +41,12 @@ def addDf {β} (s : St β) (new : List (Row β)) : St β :=
   let full := match mem with
     | none => new
     | some t => t ++ new
-  { mem := some full, disk := some full }
+  { s with mem := some full, disk := some full }
 
 def step {β} (f : List Nat → List β) (s : St β) : Op → St β
   | .sample draws => addDf s (rowsOf f draws)
   | .newSampler => { s with mem := none }
+  | .switch => { s with mem := s.other, other := s.mem }
 
 /-- `Sampler.full_df`: loads from the file on first access -/
 def fullDf {β} (s : St β) : Option (List (Row β)) :=
@@ -57,5 +61,6 @@ def allDraws : List Op → List (List Nat)
   | [] => []
   | .sample d :: rest => d ++ allDraws rest
   | .newSampler :: rest => allDraws rest
+  | .switch :: rest => allDraws rest
 
 end Sampler
